@@ -234,8 +234,10 @@ static carquet_status_t add_column_internal(
         col->logical_type = *logical_type;
     }
 
-    /* Compute definition level based on repetition */
-    col->max_def_level = (repetition == CARQUET_REPETITION_OPTIONAL) ? 1 : 0;
+    /* Levels of a leaf directly under the root: an OPTIONAL or REPEATED field adds
+     * one definition level (0 = null / empty list), a REPEATED field one
+     * repetition level. */
+    col->max_def_level = (repetition == CARQUET_REPETITION_REQUIRED) ? 0 : 1;
     col->max_rep_level = (repetition == CARQUET_REPETITION_REPEATED) ? 1 : 0;
 
     writer->column_values_written[writer->num_columns] = 0;
@@ -649,9 +651,17 @@ carquet_status_t carquet_writer_write_batch(
 
     writer->column_values_written[column_index] += num_values;
 
-    /* Track rows (use column 0 as reference) */
+    /* Track rows (use column 0 as reference).  For a REPEATED column a row
+     * starts at every entry with repetition level 0. */
     if (column_index == 0) {
-        writer->current_row_group_rows += num_values;
+        int64_t rows = num_values;
+        if (rep_levels && writer->columns[0].max_rep_level > 0) {
+            rows = 0;
+            for (int64_t i = 0; i < num_values; i++) {
+                if (rep_levels[i] == 0) rows++;
+            }
+        }
+        writer->current_row_group_rows += rows;
     }
 
     return CARQUET_OK;
